@@ -9,7 +9,7 @@
    out; Proofs/TextWalk.v shows it cannot on a well-formed CST).  No proofs in this file. *)
 From Coq Require Import List Bool NArith.
 Import ListNotations.
-From JS Require Import Model.Base Model.Shape Model.Sem Model.Infer Model.Lexer Model.Parser.
+From JS Require Import Model.Base Model.Shape Model.Sem Model.Infer Model.Lexer Model.Unescape Model.Parser.
 
 Inductive terr : Type :=
 | EInvalidJson (sp : span) (frag : list char)    (* Error::InvalidJson { value, span } *)
@@ -192,7 +192,7 @@ Definition parse_member (pr : nat -> tout shape) (c : cst) (src : list char) (i 
                  else slice_src src (fst ksp + 1, snd ksp - 1)%N) with
           | None => Panic
           | Some kchars =>
-              let key := utf8_encode kchars in
+              let key := utf8_encode (name_chars kchars) in
               obind (has_errors c src i) (fun _ =>
                 match find_kid is_value_rule kn with
                 | None => Err EInvalidObjectValue
